@@ -83,6 +83,7 @@ func installCounters() {
 			poolFinished.Add(1)
 		default:
 			parPause(p)
+			schedPause(p)
 		}
 	}, mut)
 }
@@ -117,6 +118,93 @@ func parPause(point string) {
 		time.Sleep(2 * time.Millisecond)
 		parMu.Lock()
 	}
+}
+
+// ---- scripted schedules: "arm <point> <n>" makes the n-th arrival at <point> block; "go <id> <op>" runs an
+// operation in the background; "await <point>" waits until a thread is blocked there; "release <point>"
+// lets it continue; "wait <id>" joins the background operation and prints its result ----
+type armed struct {
+	nth     int
+	arrived int
+	blocked bool
+	release chan struct{}
+}
+
+var (
+	schedMu  sync.Mutex
+	armedPts = map[string]*armed{}
+	bgRes    = map[string]chan string{}
+)
+
+func schedPause(point string) {
+	schedMu.Lock()
+	a, ok := armedPts[point]
+	if !ok {
+		schedMu.Unlock()
+		return
+	}
+	a.arrived++
+	if a.arrived != a.nth {
+		schedMu.Unlock()
+		return
+	}
+	a.blocked = true
+	ch := a.release
+	schedMu.Unlock()
+	select {
+	case <-ch:
+	case <-time.After(10 * time.Second):
+	}
+}
+
+func (e *histEnv) schedOp(t []string) (string, bool) {
+	switch t[0] {
+	case "arm":
+		n, _ := strconv.Atoi(t[2])
+		schedMu.Lock()
+		armedPts[t[1]] = &armed{nth: n, release: make(chan struct{})}
+		schedMu.Unlock()
+		return "ok", true
+	case "go":
+		ch := make(chan string, 1)
+		bgRes[t[1]] = ch
+		op := append([]string{}, t[2:]...)
+		go func() { ch <- e.step(op) }()
+		return "ok", true
+	case "await":
+		deadline := time.Now().Add(5 * time.Second)
+		for time.Now().Before(deadline) {
+			schedMu.Lock()
+			a, ok := armedPts[t[1]]
+			b := ok && a.blocked
+			schedMu.Unlock()
+			if b {
+				return "ok", true
+			}
+			time.Sleep(time.Millisecond)
+		}
+		return "AWAIT-TIMEOUT", true
+	case "release":
+		schedMu.Lock()
+		if a, ok := armedPts[t[1]]; ok {
+			close(a.release)
+			delete(armedPts, t[1])
+		}
+		schedMu.Unlock()
+		return "ok", true
+	case "wait":
+		ch, ok := bgRes[t[1]]
+		if !ok {
+			return "NO-SUCH-THREAD", true
+		}
+		select {
+		case r := <-ch:
+			return r, true
+		case <-time.After(5 * time.Second):
+			return "WAIT-TIMEOUT", true
+		}
+	}
+	return "", false
 }
 
 func (e *histEnv) runPar(groups [][]string) string {
@@ -666,6 +754,10 @@ func histMain(path, mode string) int {
 				continue
 			}
 			e.keys, e.keyIds = keys, keyIds
+			if r, ok := e.schedOp(t); ok {
+				fmt.Fprintln(out, r)
+				continue
+			}
 			if t[0] == "par" {
 				var groups [][]string
 				cur := []string{}
